@@ -326,6 +326,7 @@ func main() {
 	}
 
 	connLevel(o)
+	tcpLevel(o)
 
 	finish(o)
 }
